@@ -31,4 +31,54 @@ def SectorLen (m : Nat → Option Bytes) : Prop := ∀ i s, m i = some s → s.l
 /-- `type` : carriage returns become newlines, everything else unchanged -/
 def typeText (b : Bytes) : Bytes := b.map (fun c => if c = 13 then 10 else c)
 
+/-! ### `list` and `dump` (doc/dfs.1 "list filename", "dump filename") -/
+
+/-- the pieces between carriage returns (byte 13), like Python's `body.split(b'\r')`:
+    one more piece than there are CRs, none containing a CR -/
+def splitCR : Bytes → List Bytes
+  | [] => [[]]
+  | c :: rest =>
+    if c = 13 then [] :: splitCR rest
+    else match splitCR rest with
+      | [] => [[c]]                 -- not reached: `splitCR` never returns `[]`
+      | p :: ps => (c :: p) :: ps
+
+/-- `list` : every CR-separated line is printed as its 1-based number right-aligned
+    in 4 columns, a space, the line's bytes, and a newline; a final line without a
+    terminating CR gets no newline; an empty file prints nothing. -/
+def listSpec (b : Bytes) : Bytes :=
+  if b = [] then []
+  else
+    let terminated : Bool := b.getLast? = some 13
+    let lines := if terminated then (splitCR b).dropLast else splitCR b
+    (lines.zipIdx 1).flatMap fun (l, n) =>
+      padLeft 4 32 (decU n) ++ [32] ++ l ++ (if n < lines.length ∨ terminated then [10] else [])
+
+/-- a hex cell of `dump`: a space and the byte as two upper-case hex digits, or
+    ` **` for a position past the end of the file -/
+def dumpCell : Option Nat → Bytes
+  | some x => 32 :: padLeft 2 48 (hexU x)
+  | none => [32, 42, 42]
+
+/-- a character cell of `dump`: the byte itself if it is a space or a printable
+    ASCII character (32..126), otherwise `.` (also past the end of the file) -/
+def dumpChar : Option Nat → Nat
+  | some x => if 32 ≤ x ∧ x ≤ 126 then x else 46
+  | none => 46
+
+/-- one row of `dump` for the (at most 8) bytes `row` at file offset `pos`: the
+    offset as 6 decimal digits; the 8 hex cells; a space; the 8 character cells;
+    newline -/
+def dumpRowSpec (pos : Nat) (row : Bytes) : Bytes :=
+  padLeft 6 48 (decU pos)
+  ++ ((List.range 8).flatMap fun i => dumpCell row[i]?)
+  ++ [32]
+  ++ ((List.range 8).map fun i => dumpChar row[i]?)
+  ++ [10]
+
+/-- `dump` : ⌈len/8⌉ rows of 8 bytes; an empty file prints nothing -/
+def dumpSpec (b : Bytes) : Bytes :=
+  ((List.range ((b.length + 7) / 8)).map fun r =>
+    dumpRowSpec (8 * r) ((b.drop (8 * r)).take 8)).flatten
+
 end Beeb.Spec
